@@ -56,8 +56,8 @@ def infra_objs(nodeid, nsrv=1):
             rx = 0x600 + 0x10 * k
             tx = 0x580 + 0x10 * k
             lines += ["obj %d 0 130 0 2" % (4608 + k),
-                      "obj %d 1 67 7 %d %d 0 0" % (4608 + k, rx & 255, rx >> 8),
-                      "obj %d 2 67 7 %d %d 0 0" % (4608 + k, tx & 255, tx >> 8)]
+                      "obj %d 1 3 7 %d %d 0 0" % (4608 + k, rx & 255, rx >> 8),
+                      "obj %d 2 3 7 %d %d 0 0" % (4608 + k, tx & 255, tx >> 8)]
     return lines
 
 def make_preamble(objs, nsrv=1):
